@@ -46,3 +46,34 @@ Fixpoint failing_from (i : nat) (l : list bool) : list nat :=
   | b :: r => if b then failing_from (S i) r else i :: failing_from (S i) r
   end.
 Definition failing := failing_from 0.
+
+(* deciding equalities between concrete Qc values / vectors / matrices (for non-vacuity examples) *)
+Lemma qeqb_eq (a b : Qc) : qeqb a b = true -> a = b.
+Proof. unfold qeqb. intro H. apply Qc_is_canon. now apply Qeq_bool_eq. Qed.
+Lemma qeqb_neq (a b : Qc) : qeqb a b = false -> a <> b.
+Proof.
+  unfold qeqb. intros H E. subst b.
+  assert (Qeq_bool (this a) (this a) = true) by (apply Qeq_eq_bool; reflexivity). congruence.
+Qed.
+Fixpoint veqb (a b : list Qc) : bool :=
+  match a, b with
+  | [], [] => true
+  | x :: a', y :: b' => qeqb x y && veqb a' b'
+  | _, _ => false
+  end.
+Fixpoint meqb (a b : list (list Qc)) : bool :=
+  match a, b with
+  | [], [] => true
+  | x :: a', y :: b' => veqb x y && meqb a' b'
+  | _, _ => false
+  end.
+Lemma veqb_eq a b : veqb a b = true -> a = b.
+Proof.
+  revert b; induction a as [|x a IH]; intros [|y b] H; try discriminate; [reflexivity|].
+  cbn in H. apply andb_prop in H as [H1 H2]. f_equal; [now apply qeqb_eq | now apply IH].
+Qed.
+Lemma meqb_eq a b : meqb a b = true -> a = b.
+Proof.
+  revert b; induction a as [|x a IH]; intros [|y b] H; try discriminate; [reflexivity|].
+  cbn in H. apply andb_prop in H as [H1 H2]. f_equal; [now apply veqb_eq | now apply IH].
+Qed.
